@@ -65,6 +65,7 @@ class Report:
         self.obligations = 0
         self.discharged = 0
         self.nontrivial: set = set()
+        self.floor_fail: list[str] = []
         self.t0 = time.time()
 
     # -- bookkeeping ---------------------------------------------------
@@ -98,8 +99,9 @@ class Report:
         """Fail closed when a rule matched fewer sites than confirmed by hand."""
         self.counts[f'{rid}:{what}'] = got
         if got < minimum:
-            raise AnalysisError(f'{rid}: matched {got} {what}, expected at least {minimum} '
-                                f'(anchor moved or idiom no longer recognised)')
+            # a shortfall is fatal (exit 2) unless the run also found violations, which then take precedence
+            self.floor_fail.append(f'{rid}: matched {got} {what}, expected at least {minimum} '
+                                   f'(anchor moved or idiom no longer recognised)')
 
     def finding(self, rule_id: str, key: str, where: str, construct: str, msg: str, /, **detail):
         self.findings.append(Finding(self.prop, rule_id, key, where, construct, msg, detail))
@@ -145,6 +147,10 @@ def finish(rep: Report, level: str, explanation: str, trusted_base: list[str], a
     for k in stale:
         rep.note(f'known finding no longer reported (repaired or moved): {k}')
     status = 0
+    if rep.floor_fail and not violations:
+        raise AnalysisError('; '.join(rep.floor_fail))
+    for ff in rep.floor_fail:
+        print(f'  NOTE floor shortfall (superseded by the violations below): {ff}')
     if violations:
         status = 1
         OUT_DIR.mkdir(exist_ok=True)
